@@ -37,4 +37,83 @@ PROPS = {
         "note": "counter values <= 2^61 (uint64 wrap of day totals outside the alphabet); one mutation per metadata file",
         "design_ref": "§4 C03",
     },
+    "C15": {
+        "level": "model_checking",
+        "technique": "explicit enumeration of every arrival order of the per-host results on the one channel the real distributed aggregator reads (fake Querier seam), for every assignment of result kinds to 2-5 hosts; reference merge + identity-order comparison + streaming/non-streaming comparison",
+        "text": "For every assignment of {overlapping rows, disjoint rows, empty, error, wrapped error} to 2-3 (quick) / 2-5 (thorough) hosts with distinct time ranges, interfaces and statistics, every one of the N! arrival orders is fed to the real distributed.QueryRunner (Run, and RunStreaming with a recording SSE sender) under 6/10 query modes (limits, sort keys, time query unbinned / 15m / 1h bins). The final result is compared component-wise (everything except timings) with the identity-order run, with the non-streaming run, and with a reference merge (rows = union with summed counters, totals and statistics = sums, Hits.Total = host hits - merged rows, every failed host reported with its error). Exhaustive over the arrival orders; since the aggregator consumes a single channel sequentially, arrival order is the only effect goroutine interleavings can have on it.",
+        "note": "the fan-in goroutines of plugins/querier/apiclient are not executed (error results are built exactly as they build them); keepalive channel closed; which rows survive a limit is left to C14; with time binning Hits.Total is only checked for order/streaming equality",
+        "design_ref": "§4 C15",
+    },
+    "C19": {
+        "level": "exploration",
+        "technique": "exhaustive input enumeration of the real ParsePacketV4/V6 against an RFC-offset reference parser: every IP-layer length 1..60 x all 256 protocols x fragment fields x address pairs x port alphabet^2 x all flag/type bytes, plus all 2^32 port pairs (thorough)",
+        "text": "IPv4/IPv6 packets are built from RFC field offsets, cut to every length the capture source can hand over, and parsed by the real parser together with their mirror image; classification (non-first fragment unless ESP, truncated), addresses, protocol and the documented port fields are compared with a reference written from the RFCs and the documented common-port table, and parse(mirror) must equal Reverse(parse). The sweep scenario runs every source/destination port pair for TCP and UDP in both families (quick: pairs touching a 40-port boundary alphabet; thorough: all 2^32). Panics are violations.",
+        "note": "IHL=5 / no IPv6 extension headers (documented fixed-offset design); 3 address pairs per family; inner loops are counted as transitions (parser calls), evaluations = choice sequences",
+        "design_ref": "§4 C19",
+    },
+    "C22": {
+        "level": "exploration",
+        "technique": "exhaustive enumeration of conversations through the real parser and the real addToFlowLog on an empty flow log, first packet client->server vs server->client: port alphabet^2 x all 256 TCP flag bytes, all 256x256 ICMP/ICMPv6 type pairs, all 2^32 client/server port pairs for TCP mid-stream and UDP (thorough)",
+        "text": "For each conversation the key stored in the FlowLog after the first packet is observed twice (client's packet first, server's packet first). SYN vs SYN+ACK and ICMP echo/timestamp/ICMPv6 echo exchanges must be stored requester->responder with identical keys; mid-stream TCP and UDP must store identical keys whenever the documented port rule is decisive (ports differ); handshake and mid-stream stages must agree for the canonical ephemeral-client/service-port case. The decisive predicate is written from the documentation, not from the code.",
+        "note": "unicast address pairs only (multicast/broadcast have no reverse direction); conflicting heuristics (client on a service port) are not treated as decisive; the all-pairs sweep reuses one Capture per execution and empties its two maps with clear()",
+        "budget": {"thorough": 2400},
+        "design_ref": "§4 C22",
+    },
+    "C07": {
+        "configs": ("cgo", "nocgo", "noliblz4", "nolibzstd"),
+        "level": "exploration",
+        "technique": "exhaustive enumeration of encoder x level x input length x content class x caller scratch buffer (len,cap) x encoder history on the real encoders, run inside each of the four compression builds (cgo, CGO_ENABLED=0, goprobe_noliblz4, goprobe_nolibzstd); every execution isolated in a child process so a fault inside liblz4/libzstd is a finding",
+        "text": "For each build configuration (self-checked against build info and the linked implementations), every encoder and level (null, lz4 0-12, zstd 0-19; quick: 4-5 levels each), 8 payload classes, 16-28 lengths from 0 to 300000 bytes, 7-11 scratch buffers (nil, empty, too small, exactly the worst-case bound, gpfile's pre-sized non-empty 8192-byte buffer, longer than the output) and a fresh or previously used encoder object, Compress is run against a recording writer and Decompress against a file-like reader sized from the reported count: the reported count must equal the bytes emitted and the restored bytes must equal the input. Bounded exhaustive over these alphabets, not over all byte strings.",
+        "note": "payload classes and a fixed length list instead of all inputs; compressor and decompressor come from the same build (cross-build reading is C02); liblz4 / libzstd as installed",
+        "design_ref": "§4 C07",
+    },
+    "C13": {
+        "level": "exploration",
+        "technique": "exhaustive input enumeration on the real Statement.PostProcess / TimeBinner (statement built by the real Args.Prepare): all row multisets up to a size bound over a boundary-value row alphabet per bin size, compared with a group-by-bin-end reference; automatic bin size over all whole-second durations of a grid",
+        "text": "For 6 (quick) / 27 (thorough) bin sizes that are multiples of 5 min, every multiset of <=3..5 rows from up to 68 rows (timestamps on, one second before and after 5-minute, bin and day boundaries, same instants in other zones, zero time; 2 label sets x 2 attribute sets; counters up to 2^40) is binned by the real code: per-counter sums are conserved, there is at most one row per (bin, labels, attributes), every row carries the smallest bin multiple >= its timestamp with the reference sums, and binning twice equals binning once. CalcTimeBinSize and Args.Prepare(time_resolution=auto) are checked for every whole-second duration 0..2 h (thorough 2 days), every multiple of 5 min +-1 s up to 40 (400) days and 1 y/10 y: bin > 0, multiple of 5 min, ceil(duration/bin) <= 288.",
+        "note": "bounded: multisets of at most 5 rows; timestamps are whole seconds >= epoch; rows without time label judged for conservation/uniqueness only; 5 min bin (not coarser) judged for conservation and idempotence only; 'a day's worth of bins' read as ceil(d/bin) <= 288",
+        "design_ref": "§4 C13",
+    },
+    "C14": {
+        "level": "exploration",
+        "technique": "exhaustive input enumeration: all row multisets up to a size bound from a tie-forcing alphabet x all input permutations x all 24 sort orders through the real results.By(...).Sort, Statement.PostProcess (limit) and global-query finalizeResult, compared with a reference total order",
+        "text": "For each of 24 orders (packets|bytes|time x sum|in|out|both x asc|desc, statement built by the real Args.Prepare) every multiset of <=4 (thorough <=5) rows from a 16 (22) row alphabet built for ties (equal counters, one instant in UTC/+02:00/two +05:30 Locations/local time, IPv4/4-in-6/IPv6/unset addresses, same attributes on other iface/host, rows without time label) is sorted in ALL n! input orders: every input order must give the same sequence, equal to the reference order (primary key, then sip, dip, proto, dport, instant, hostname, iface; reversed when descending); limits {1,n-1,n,n+1,default} through PostProcess and finalizeResult (with upper bounds) must keep exactly the first rows.",
+        "note": "HostID tied to hostname (documented in Labels.Less); rows differing only in zone representation or only in counters are not in the alphabet; sets of <=5 rows use sort.Sort's insertion-sort path; Go map iteration order in RowsMap is not enumerated: finalizeResult is run only where the real comparator orders every pair",
+        "design_ref": "§4 C14",
+    },
+    "C17": {
+        "level": "exploration",
+        "technique": "exhaustive bounded enumeration of JSON round trips on the real types: every enumeration member through name and JSON mappings; Args/Statement/Result with <=2 (quick) / <=4,4,3 (thorough) deviating fields from an all-zero and a fully populated base, x {encoding/json, jsoniter} encoder x decoder x {Marshal(&v), Marshal(v)}",
+        "text": "Every declared member of types.Direction and results.SortOrder is mapped value->name->value and value->JSON->value (bare and as a struct field, pointer and by value, both libraries in all four encoder/decoder pairings). query.Args, query.Statement and results.Result values are generated from per-field alphabets (escapes, HTML, non-ASCII strings, 0/1/-1/max numbers, durations, instants with ns and offsets, v4/v6/4in6/zoned/invalid addresses, counters up to 2^64-1, nil/empty/short slices and maps, every enumeration member) with every combination of at most `bound` fields deviating from two base values; each is encoded and decoded again and compared field by field (exported JSON-visible fields, instants by time.Equal, nil==empty). Bounded exhaustive: interactions of more than `bound` fields are not covered.",
+        "note": "failure signatures are normalised over the 8 (encoder, decoder, mode) combinations; documents are canonicalised (sorted keys) before counting because jsoniter does not sort map keys; strings are valid UTF-8; ExtendedRow (flow log) is out of scope",
+        "design_ref": "§4 C17",
+    },
+    "C28": {
+        "level": "exploration",
+        "technique": "exhaustive grid enumeration of ParseTimeArgument/ParseTimeRange on the real code: instants x all 50 supported layouts x UTC offsets x process time zones (time.Local set per execution) plus every DST transition +-1h; relative forms and ranges against the virtual clock of a testing/synctest bubble",
+        "text": "For each of 4 (quick) / 5 (thorough) process time zones and every 7th (quick) / every (thorough) year 1970-2068, every instant of a month/day/time grid is formatted in each of the repository's 50 layouts (layouts with an offset: zone's own offset, +0000, +0430, thorough also -0700 and +1000, RFC3339 also +00:00) and parsed back; the result must be the instant at the layout's precision, except where the text is also valid under another supported layout with a different meaning (the stated exception) or lies in a DST fold (either instant). Every offset transition of each zone is probed at +-1h, +-30min, +-1s. Relative times -XdYhZm and -Xd:Yh:Zm (each part optional, zero-padded or not, values up to 100000) must equal floor(now)-duration for four virtual now values; ParseTimeRange and ParseTimeRangeCollectErrors over 21x21 bound texts must reject start>end and otherwise return both instants.",
+        "note": "layout lists are read from the code at run time (a changed layout changes the specification); zone rules from host zoneinfo or Go's embedded tzdata; synctest is reached from the non-test worker through a parked testing.Main test; no wall-clock reads",
+        "design_ref": "§4 C28",
+    },
+    "C16": {
+        "level": "exploration",
+        "technique": "exhaustive enumeration of interface arguments against all sets of existing interfaces, through the real selection functions and end to end through QueryRunner.Run on tiny real databases, compared with a set model",
+        "text": "Every comma list of length <=4 (quick) / <=6 (thorough) over {eth0,eth1,eth9(absent),any,ANY,!eth0,!eth1,!eth9[,wlan0,!wlan0]} with repetitions is passed to the real list-selection function for every subset of existing interfaces; every list of length <=3 is additionally run as a real query against a database containing exactly that subset and Result.Summary.Interfaces is compared; 16 regular-expression arguments (incl. invalid and degenerate) go through both paths; names outside the syntax ('', '!', '!!eth0', 16 chars, ...) must not crash. Expected set = (listed and existing, or all if any) minus negated; regex = names matched. Bounded exhaustive over a 3-4 interface universe.",
+        "note": "only the selected set is judged (duplicates are not); an empty selection may surface as a query error; '!any' is outside the judged alphabet",
+        "design_ref": "§4 C16",
+    },
+    "C23": {
+        "level": "model_checking",
+        "technique": "explicit-state exploration of the real LocalBuffer: all fill/drain/reset histories with <=1 (thorough <=2) deviations from a fill-until-refused history per size limit and fill pattern, plus the full product of field values on adjacent items, compared with a queue model after every take",
+        "text": "For every size limit in the tables (every value page-1..page+46, around 2x/4x page, 1..100000) and four v4/v6 fill patterns the real buffer is filled until the first refusal with cycling field values; at any step a deviation inserts the other IP version, takes 1/all items, or takes all and Resets (optionally recycling the pool slice); all histories with <=1 deviation (thorough: <=2 near page and 2x page) are executed; every item taken is compared field by field with a model queue, refusals must be justified by accepted bytes + item bytes >= limit and must not change Usage() or later output, and no call may panic. A second scenario enumerates all combinations of type/aux/parse-status/size/key pattern on two adjacent items (+optional third).",
+        "note": "keys have the length matching the IP version flag; item bytes = len(key) + the buffer's own per-item overhead constant (read through the export file); bytes counted since the last Reset; explorer bound = deviations-1 (first deviation enumerated by case)",
+        "design_ref": "§4 C23",
+    },
+    "C12": {
+        "level": "exploration",
+        "technique": "exhaustive enumeration of all (first,last) pairs over a boundary-instant grid on the real DBWorkManager.ReadMetadata for databases written by the real DBWriter, against a sum over the reference blocks and against the totals of a real query",
+        "text": "For three databases (6 write-outs over 3 days across a month boundary with per-block drop counts; a single block; 3 blocks in one day) every pair first<=last over 20 boundary instants (before all data, one second before / on / after each block, between blocks, day boundaries, after all data: 210 ranges each) is passed to ReadMetadata; flows per IP version, drops and the four counters must equal the sum over the reference blocks with first<=ts<=last, and the counters must equal Summary.Totals of a real query over the same interface and range.",
+        "note": "one interface per listing; databases are small but cover first/last day partial, same-day first and last, and empty ranges",
+        "design_ref": "§4 C12",
+    },
 }
